@@ -59,7 +59,7 @@ Outcome run_case(const Case &c) {
   Outcome out;
   bool tainted_smaller = false; // a handle was opened with a smaller size argument than the creator's (known finding D8)
   auto fail = [&](const string &k, const string &m) { if (out.verdict.empty()) { out.verdict = (tainted_smaller ? "[a handle was opened with a smaller size argument than the creator's] " : "") + m; out.klass = tainted_smaller ? "open-with-smaller-size-arg" : k; } };
-  char name[64]; snprintf(name, sizeof name, "vsb_%d_%d", (int)getpid(), g_seq++);
+  char name[96]; snprintf(name, sizeof name, "vsb_%d_%lx_%d", (int)getpid(), ({ struct timespec ts_; clock_gettime(CLOCK_MONOTONIC, &ts_); (long)(ts_.tv_sec * 1000000000L + ts_.tv_nsec); }), g_seq++);
   size_t S = (size_t)c.cap;
   PShmBuffer *creator = p_shm_buffer_new(name, S, NULL);
   if (!creator) { fail("new", "p_shm_buffer_new failed"); return out; }
